@@ -4,7 +4,7 @@ patch="$1"; shift
 git -C /repo apply "$patch" || { echo "patch does not apply"; exit 2; }
 for p in "$@"; do
   echo "=== $p"
-  ( cd /verif && ./check "$p" --tier quick 2>&1 | grep -E "^VIOLATION|^KNOWN|^  \[|tier=" | cut -c1-420 | head -8 )
+  ( cd /verif && ./check "$p" --tier quick 2>&1 | grep -E "^VIOLATION|^KNOWN|^  \[|tier=" | cut -c1-420 | head -14 )
 done
 git -C /repo checkout -- .
 echo "=== reverted: $(git -C /repo status --short | wc -l) dirty files"
